@@ -169,14 +169,15 @@ class ConfidenceMonitor:
                 p = np.argwhere((g < -1e-6) | (g > 1 + 1e-6))[0]
                 self.v("ambiguity_out_of_0_1", ev, side, pixel=p.tolist(), got=float(g[p[0], p[1]]))
                 return
-        if tmeasure != "min":
-            ctx.probe("ambiguity_on_max_measure_values_not_asserted")
-            return
         if n_etas_ambiguous(cfgp["eta_max"], cfgp["eta_step"]):
             ctx.probe("eta_sample_count_ambiguous_values_not_asserted")
             return
         etas = etas64(cfgp["eta_max"], cfgp["eta_step"])
         ncv = self._norm(cv)
+        if tmeasure == "max":
+            # for a similarity measure the pixel's best is its largest cost: mirror the normalised curve
+            ncv = 1.0 - ncv
+            ctx.probe("ambiguity_on_max_measure")
         lo_nan, _ = self._counts(ncv, etas, -EPS, True)
         hi_nan, _ = self._counts(ncv, etas, +EPS, True)
         lo_fin, _ = self._counts(ncv, etas, -EPS, False)
@@ -187,7 +188,8 @@ class ConfidenceMonitor:
             if bad.any():
                 p = np.argwhere(bad)[0]
                 self.v("ambiguity_value", ev, side, pixel=p.tolist(), got=float(raw[p[0], p[1]]),
-                       bracket=[float(lo_fin[p[0], p[1]]), float(hi_nan[p[0], p[1]])], sig={"normalization": False})
+                       bracket=[float(lo_fin[p[0], p[1]]), float(hi_nan[p[0], p[1]])],
+                       sig={"normalization": False, "type_measure": tmeasure})
                 return
             ctx.bump("ambiguity_raw_checked")
             return
@@ -204,7 +206,7 @@ class ConfidenceMonitor:
         if (np.abs(exp - g) > 1e-4).any():
             p = np.argwhere(np.abs(exp - g) > 1e-4)[0]
             self.v("ambiguity_value", ev, side, pixel=p.tolist(), got=float(g[p[0], p[1]]),
-                   expected=float(exp[p[0], p[1]]), sig={"normalization": True})
+                   expected=float(exp[p[0], p[1]]), sig={"normalization": True, "type_measure": tmeasure})
             return
         ctx.bump("ambiguity_normalized_checked")
 
@@ -223,11 +225,13 @@ class ConfidenceMonitor:
             self.v("risk_order", ev, side, pixel=p.tolist(), risk_min=float(b[p[0], p[1]]), risk_max=float(a[p[0], p[1]]))
             return
         ctx.bump("risk_order_checked")
-        if tmeasure != "min" or n_etas_ambiguous(cfgp["eta_max"], cfgp["eta_step"]):
+        if n_etas_ambiguous(cfgp["eta_max"], cfgp["eta_step"]):
             ctx.probe("risk_values_not_asserted")
             return
         etas = etas64(cfgp["eta_max"], cfgp["eta_step"])
         ncv = self._norm(cv)
+        if tmeasure == "max":
+            ncv = 1.0 - ncv
         rows, cols, nd = ncv.shape
         idx = np.arange(nd)
         for r in range(rows):
@@ -253,7 +257,8 @@ class ConfidenceMonitor:
                     continue
                 e1, e2 = float(np.mean(spreads)), float(np.mean(mins))
                 if abs(a[r, c] - e1) > 1e-3 * max(1, e1) or abs(b[r, c] - e2) > 1e-3 * max(1, abs(e2)):
-                    self.v("risk_value", ev, side, pixel=[r, c], got=[float(a[r, c]), float(b[r, c])], expected=[e1, e2])
+                    self.v("risk_value", ev, side, pixel=[r, c], got=[float(a[r, c]), float(b[r, c])], expected=[e1, e2],
+                           sig={"type_measure": tmeasure})
                     return
         ctx.bump("risk_values_checked")
 
